@@ -178,6 +178,18 @@ func jwtCases(k *signKey, alg string, other []*signKey, now time.Time, rnd func(
 		h["kid"] = 7
 		add("kid number", h, cl, nil, "")
 		h = cloneM(hdr)
+		h["kid"] = nil
+		add("kid null", h, cl, nil, "")
+		h = cloneM(hdr)
+		h["kid"] = []string{k.kid}
+		add("kid array", h, cl, nil, "")
+		h = cloneM(hdr)
+		h["kid"] = M{"id": k.kid}
+		add("kid object", h, cl, nil, "")
+		h = cloneM(hdr)
+		h["kid"] = true
+		add("kid boolean", h, cl, nil, "")
+		h = cloneM(hdr)
 		h["kid"] = "unknown-kid"
 		add("kid unknown", h, cl, nil, "")
 		h = cloneM(hdr)
@@ -398,8 +410,18 @@ func familyJwt(t *testing.T) {
 	rng := T.rng
 	synctest.Test(t, func(t *testing.T) {
 		defer guard()
-		K := keys()
-		keySets := [][]string{{"rsa2048a", "p256a", "rsa2048b", "p384"}, {"p521", "rsa3072", "p256b"}}
+		K := map[string]*signKey{}
+		for n, k := range keys() {
+			K[n] = k
+		}
+		// keys the provider publishes without a key ID, next to named ones: a token selects a key by its kid, so no token selects them
+		// unless it says `"kid": ""`
+		for _, n := range []string{"p256b", "rsa2048b"} {
+			u := *K[n]
+			u.name, u.kid = "unnamed-"+n, ""
+			K[u.name] = &u
+		}
+		keySets := [][]string{{"rsa2048a", "p256a", "rsa2048b", "p384"}, {"p521", "rsa3072", "p256b"}, {"p256a", "unnamed-p256b", "rsa2048a"}, {"unnamed-rsa2048b", "p384"}}
 		if T.thorough() {
 			keySets = append(keySets, []string{"rsa4096", "p256a", "p256b", "rsa2048a", "rsa2048b", "rsa3072", "p384", "p521"})
 		}
